@@ -345,7 +345,8 @@ def _nt(desc, ref, ctx):
 # ---------------------------------------------------------------------------------------------------------------------
 # 1. the equations
 def strat_equations():
-    return _mixture()
+    # one case in five: measured isotherms only (the shape that can be converted in place between two calculations)
+    return st.sampled_from([0, 0, 0, 0, 1]).flatmap(lambda k: _mixture(n_max=3, kinds=("point",)) if k else _mixture())
 
 
 def check_equations(desc, ctx):
@@ -360,6 +361,25 @@ def check_equations(desc, ctx):
     l = call(pgiast.iast_point, ctx, isos, arg, warningoff=desc["warningoff"], adsorbed_mole_fraction_guess=guess)
     ctx.label("returned", "returned:" + _xmin_label(ref))
     assess(isos, pures, p, l, ref, "iast_point", ctx)
+    if all(c["kind"] == "point" for c in desc["comps"]):
+        # the same isotherm objects converted in place to another pressure unit, then the same physical state asked
+        # again in that unit: the equations hold for the isotherms as they now stand
+        f = 1.0 / 1.01325
+        for iso in isos:
+            iso.convert_pressure(unit_to="atm")
+        pures2 = [R.PointPure(pu.P * f, pu.L) for pu in pures]
+        p2 = [v * f for v in p]
+        arg2 = list(p2) if desc["as_list"] else np.array(p2)
+        l2 = call(pgiast.iast_point, ctx, isos, arg2, warningoff=desc["warningoff"], adsorbed_mole_fraction_guess=guess)
+        ctx.label("returned_after_inplace_conversion")
+        x2 = assess(isos, pures2, p2, l2, ref, "iast_point after convert_pressure('atm') of the same objects", ctx)
+        for i, iso in enumerate(isos):
+            q = float(p2[i] / x2[i])
+            if q <= pures2[i].pmax:
+                got, want = float(iso.spreading_pressure_at(q)), pures2[i].sp(q)
+                if not abs(got - want) <= 1e-9 * abs(want):
+                    raise Violation(f"component {i} after convert_pressure('atm'): spreading_pressure_at({q!r}) = {got!r}, "
+                                    f"integral of the converted data = {want!r}", tag="sp_stale_after_conversion")
     _nt(desc, ref, ctx)
 
 
